@@ -17,6 +17,7 @@ What is proved here (for all inputs; `decide` is used only over the finite gener
 import ErgoVerif.Lemmas.Stream
 import ErgoVerif.Lemmas.Frame
 import ErgoVerif.Lemmas.Envelope
+import ErgoVerif.Lemmas.Request
 import ErgoVerif.Model.Link
 namespace ErgoVerif.Props.C12
 open ErgoVerif.Stream ErgoVerif.Generated.Proto
@@ -202,5 +203,31 @@ theorem C12_envelope_wellformed (cd : Codec) (t : Nat) (frame : List UInt8) (max
 example : ∃ cd : Codec, ∀ t b, cd.decomp t (cd.comp t b) = some b := ⟨⟨fun _ b => b, fun _ b => some b⟩, fun _ _ => rfl⟩
 
 end Envelope
+
+/-! ## Synchronous requests: the reply reaches the requester in every interleaving -/
+section Request
+open ErgoVerif.Request
+
+/-- the capacity the code gives the reply channels (all `make(chan MessageResult…)` sites, extracted) -/
+theorem reply_channel_buffered : requestChanCap > 0 := by decide
+
+/-- For EVERY interleaving of the requester (send … enter the select … receive / time out) with the
+    receive worker that hands the reply over by a non-blocking send: the reply is never thrown
+    away, and once it has arrived for a request that is still pending the requester can no longer
+    time out — it can only receive it. -/
+theorem C12_reply_not_lost (ls : List Lbl) (s : St) (hr : run requestChanCap init ls = some s) :
+    s.dropped = false ∧ (s.arrived = true → s.registered = true → step requestChanCap s .timeout = none ∧ s.buffered = true) :=
+  buffered_ok requestChanCap reply_channel_buffered ls s hr
+
+/-- regression witness (the code before the repair used unbuffered channels): a reply that comes
+    back before the requester reaches the select is dropped and the request times out -/
+theorem C12_reply_unbuffered_lost : ∃ ls s, run 0 init ls = some s ∧ s.dropped = true ∧
+    run 0 s [.enterWait, .timeout] = some { s with req := .timedOut, registered := false } :=
+  unbuffered_drops
+
+/-- the schedule "reply first, then wait" is enabled and ends with the reply received -/
+example : (run requestChanCap init [.replyArrives, .enterWait, .recv]).map (·.req) = some .gotReply := by decide
+
+end Request
 
 end ErgoVerif.Props.C12
